@@ -14,9 +14,10 @@
     the feature ordering is a strict weak order
   Carried by the exhaustive small-scope correspondence + executable set-of-bases spec only
   (see DESIGN.md): connect on a ring (cover / well-formed / shortest arc), extension on a ring,
-  offset of multi-part locations, the textual round trip.
+  offset of multi-part locations.
 -/
 import ASV.Proofs.LocOrder
+import ASV.Proofs.LocString
 namespace ASV.C04
 open ASV
 
@@ -148,6 +149,14 @@ theorem key_order_strict_weak :
     (∀ a b c, (keyLt a b = false ∧ keyLt b a = false) → (keyLt b c = false ∧ keyLt c b = false) →
       (keyLt a c = false ∧ keyLt c a = false)) :=
   ⟨keyLt_irrefl, keyLt_trans, keyLt_incomp_trans⟩
+
+/-! ### textual form -/
+
+/-- the textual form of a location (`str(location)`, as stored in qualifiers such as
+    `core_location`) reads back through `location_from_string` to the same location: simple and
+    compound, all four strand spellings, any integer coordinates (exact positions) -/
+theorem string_roundtrip (l : Loc) (hne : l.parts ≠ []) : locFromChars (locChars l) = some l :=
+  locFromChars_locChars l hne
 
 /-! ### non-vacuity -/
 example : (Loc.compound [⟨90, 100, .fwd⟩, ⟨0, 10, .fwd⟩]).OK 100 ∧ (Loc.simple ⟨20, 30, .rev⟩).OK 100 := by
